@@ -1212,6 +1212,14 @@ class Engine:
                         else:
                             for d, x in enumerate(elts):
                                 self.check_index(unparse(nd), arr, d, to_num(self.ev(x, st, False, {})), st, False)
+            if sm.capture:
+                call = s.value if isinstance(s, (ast.Expr, ast.Assign, ast.AnnAssign)) else None
+                if not isinstance(call, ast.Call) or len(call.args) < len(sm.capture):
+                    raise ContractError(f"{self.fs.qualname}: summary {key[6:]} captures arguments of a call that is not there")
+                self.cur_stmt = s
+                for gname, a in zip(sm.capture, call.args):
+                    st.vars[gname] = self.ev_code(a, st)
+                    self.ghost_names.add(gname)
             for n, t in sm.binds.items():
                 st.vars[n] = self.mk_param(f"{n}!{next(_fresh)}", t)
             for a in sm.assume:
